@@ -306,6 +306,13 @@ func InstEntries() []Entry {
 			f.Kind("InstAlloca")
 			f.Func("void")
 			t := f.Type("T", TFirstCl)
+			addrspace := f.Flip("addrspace")
+			if addrspace {
+				// (bitcode does not record the address space of an alloca: it is the data
+				// layout's, so the module must declare it -- and be alone in its module)
+				f.Solo = true
+				f.TopLine("target datalayout = \"A5\"")
+			}
 			n := f.Param("i32")
 			s := "alloca" + f.Opt("inalloca", " inalloca") + " " + t
 			switch f.N("nelems", 3) {
@@ -315,9 +322,18 @@ func InstEntries() []Entry {
 				s += ", i64 4"
 			}
 			s += f.Opt("align", ", align 8")
+			as := ""
+			if addrspace {
+				as = ", addrspace(5)"
+			}
+			s += as
 			r := f.Res()
 			f.Line("%s = %s%s", r, s, f.instMD())
-			f.Use(t+"*", r)
+			if as != "" {
+				f.Use(t+" addrspace(5)*", r)
+			} else {
+				f.Use(t+"*", r)
+			}
 			f.End("")
 		}},
 		{Name: "load", Build: func(f *Frag) {
